@@ -311,7 +311,7 @@ type model struct {
 	focusAfter int
 	endedEarly bool
 	entered    map[int]bool
-	mouseIn bool
+	mouseIn    bool
 }
 
 func (m *model) index(n *node, parent int) {
